@@ -169,7 +169,12 @@ func genFastReadAny(w *codewriter, rwctx *golang.ReadWriteContext, varname strin
 	case parser.Category_String:
 		genFastReadString(w, pointer, varname)
 	case parser.Category_Binary:
-		genFastReadBinary(w, pointer, varname)
+		if rwctx.TypeName == "string" {
+			// a binary map key is a string in go, see (*ReadWriteContext).asKeyCtx
+			genFastReadString(w, pointer, varname)
+		} else {
+			genFastReadBinary(w, pointer, varname)
+		}
 	case parser.Category_Map:
 		genFastReadMap(w, rwctx, varname, depth)
 	case parser.Category_List:
